@@ -1181,10 +1181,14 @@ func describe(ps []wirePush) []string {
 }
 
 func TestC26(t *testing.T) {
+	if drv.IsChild() {
+		lostChild(t)
+		return
+	}
 	run := mon.Start(t, "C26", "exploration",
 		"one history per synctest bubble: 1-8 Receives (SUBSCRIBE / PSUBSCRIBE / SSUBSCRIBE) with overlapping channel, pattern and shard sets on the shared connection, optionally a dedicated client running Receive or SetPubSubHooks; 2-3 publishers of numbered messages, VERIF.ECHO traffic on the same connections, "+
 			"explicit / multi-channel / wildcard (P|S)UNSUBSCRIBE through client.Do and through the dedicated client, server-forced unsubscribes, context cancellation and deadlines, server-side kills, Receives on fresh channels started while messages flow, release of the dedicated client, final cancel or Close; RESP3 and AlwaysRESP2, ring and flowbuffer, chunked writes, retry on/off; "+
-			"plus the deterministic wedge probe (k1_test.go) at 1/16/17/20 early messages; a case = one Receive (api, command, RESP, #channels, return class, causes present, overlap with another Receive, delivered bucket, segments) or one hooks session")
+			"plus the deterministic wedge probe (k1_test.go) at 1/16/17/20 early messages and 12 child-process histories of SetPubSubHooks on a connection that is already lost (lost_test.go); a case = one Receive (api, command, RESP, #channels, return class, causes present, overlap with another Receive, delivered bucket, segments) or one hooks session")
 	defer run.Finish()
 	run.Assume("fakeredis logs a push in the order it reaches the wire; every published payload is unique, so a delivered message identifies one wire frame",
 		"completeness is demanded up to the unsubscribe notification (wire order) or, for abrupt ends (cancel, Close, kill), up to the last settle point of the bubble before the end; beyond that only 'contiguous, in order, no duplicates, nothing foreign' is demanded",
@@ -1231,6 +1235,7 @@ func TestC26(t *testing.T) {
 			run.Sample(map[string]any{"scenario": sc.String(), "receives": len(w.recvs), "published": w.published.Load(), "echo_ok": w.echoOK.Load()})
 		}
 	}
+	checkLostHooks(run)
 	checkWedge(t, run) // last: its bubbles end wedged and leave parked goroutines behind
 	run.Observe("receives", int64(st.receives))
 	run.Observe("hooks_sessions", int64(st.hooksSessions))
@@ -1250,5 +1255,5 @@ func TestC26(t *testing.T) {
 	run.Observe("histories_with_kill", int64(st.killed))
 	run.Observe("slow_consumer_stalls", int64(st.stalls))
 	run.Require("receives", "hooks_sessions", "messages_delivered", "messages_required", "returned_nil_on_unsubscribe", "returned_ErrClosing", "returned_ctx_error", "returned_connection_error",
-		"receives_overlapping_another", "hook_channels_drained", "echo_replies_checked", "wedge_probe_runs", "wedge_probe_clean", "receives_confirmed_by_subscription_hook", "slow_consumer_stalls")
+		"receives_overlapping_another", "hook_channels_drained", "echo_replies_checked", "wedge_probe_runs", "wedge_probe_clean", "receives_confirmed_by_subscription_hook", "slow_consumer_stalls", "lost_connection_hook_histories", "lost_connection_channels_drained", "lost_connection_channels_with_one_error")
 }
